@@ -144,7 +144,62 @@ def h_lookup_hash_seed(ctx, case):
     return 'ok'
 
 
-HARNESSES = [
+def _stage_harnesses():
+    """the other parallel stages under every completion order of their
+    workers (K 'not yet' answers per poll): the product must equal the
+    single-worker product (harness bodies of C09 / C11 / C12)"""
+    from harness import C09, C11, C12
+    from harness import refstats as RS
+    common = dict(stubs=['multiprocessing -> symbolic scheduler: every '
+                         'completion order of the workers within K'],
+                  outside='OS scheduling below the granularity of a worker '
+                          'body')
+    return [
+        Harness('reference_marker_stage_schedules', C11.h_marker_stage,
+                setup=C11._rm_setup,
+                cases=[{'vary': [], 'fixed': True, 'K': 1, 'nproc': 2},
+                       {'vary': [], 'fixed': True, 'K': 1, 'nproc': 2,
+                        'route': 'mask'}],
+                thorough_cases=[{'vary': [], 'fixed': True, 'K': 1,
+                                 'nproc': 3}],
+                funcs=['markers.find_markers_for_all_taxonomy_pairs',
+                       'p_value_mask.create_p_value_mask_file',
+                       'p_value_markers.find_markers_for_all_taxonomy_'
+                       'pairs_from_p_mask',
+                       'csc_to_csr_parallel.transpose_sparse_matrix_on_'
+                       'disk_v2'],
+                bounds='real files, 5 clusters / 6 genes, 2 (thorough 3) '
+                       'workers in each pool, every completion order '
+                       'within K=1; '
+                       'tables compared with the single-worker run',
+                expect_reach=['written'], split=16, tiers=('thorough',),
+                **common),
+        Harness('marker_selection_stage_schedules', C12.h_select_all,
+                setup=C12._ss_setup,
+                cases=[{'vary_genes': ['g1'], 'target': 1, 'K': 1,
+                        'nproc': 2}],
+                thorough_cases=[{'vary_genes': ['g1'], 'target': 1, 'K': 1,
+                                 'nproc': 3}],
+                funcs=['selection_pipeline.select_all_markers',
+                       '_marker_selection_worker'],
+                bounds='real marker file; 2 (thorough 3) workers, every '
+                       'completion order within K=1; gene sets compared with the '
+                       'single-worker run',
+                expect_reach=['selected'], split=16, **common),
+        Harness('statistics_stage_schedules', C09.h_stage, setup=RS.setup,
+                cases=[{'cells': 3, 'genes': 1, 'clusters': 2,
+                        'max_proc': 3, 'K': 2}],
+                thorough_cases=[{'files': 2, 'cells': 2, 'genes': 1,
+                                 'clusters': 2, 'max_proc': 3, 'K': 2}],
+                funcs=['precompute_from_anndata.precompute_summary_stats_'
+                       'from_h5ad_and_lookup', '_process_chunk_spec'],
+                bounds='3 cells, 1-3 workers, every completion order within '
+                       'K=2; every table compared with its definition',
+                expect_reach=['written'], split=32, **common),
+    ]
+
+
+HARNESSES = _stage_harnesses() + [
     Harness('query_marker_lookup_hash_seed', h_lookup_hash_seed,
             setup=setup_lookup_hash, cases=[{}],
             funcs=['marker_cache_v2.create_marker_gene_lookup_from_ref_list',
